@@ -186,3 +186,63 @@ orc_debug_set_print_function (OrcDebugPrintFunc func)
   }
 }
 
+
+#ifdef ORC_VERIF_HOOKS
+#include <orc/orcverif.h>
+#include <fcntl.h>
+#include <unistd.h>
+#include <pthread.h>
+
+static int _orc_verif_fd = -2;   /* -2: not looked at yet, -1: disabled */
+static unsigned int _orc_verif_seq;
+static pthread_mutex_t _orc_verif_mutex = PTHREAD_MUTEX_INITIALIZER;
+
+int
+orc_verif_enabled (void)
+{
+  int fd = __atomic_load_n (&_orc_verif_fd, __ATOMIC_ACQUIRE);
+  if (fd == -2) {
+    pthread_mutex_lock (&_orc_verif_mutex);
+    fd = _orc_verif_fd;
+    if (fd == -2) {
+      const char *fn = getenv ("ORC_VERIF_TRACE");
+      fd = -1;
+      if (fn && fn[0]) {
+        fd = open (fn, O_WRONLY | O_APPEND | O_CREAT | O_CLOEXEC, 0644);
+        if (fd >= 0 && fd < 200) {
+          /* keep the trace out of the range of descriptors the library
+           * and the harnesses count */
+          int fd2 = fcntl (fd, F_DUPFD_CLOEXEC, 200);
+          if (fd2 >= 0) { close (fd); fd = fd2; }
+        }
+      }
+      __atomic_store_n (&_orc_verif_fd, fd, __ATOMIC_RELEASE);
+    }
+    pthread_mutex_unlock (&_orc_verif_mutex);
+  }
+  return fd >= 0;
+}
+
+void
+orc_verif_emit (const char *fmt, ...)
+{
+  char buf[4096];
+  int n, m;
+  va_list args;
+  unsigned int q;
+
+  if (!orc_verif_enabled ()) return;
+  q = __atomic_add_fetch (&_orc_verif_seq, 1, __ATOMIC_SEQ_CST);
+  n = snprintf (buf, sizeof (buf), "{\"q\":%u,\"t\":%lu,", q,
+      (unsigned long) ((unsigned long) pthread_self () % 1000003UL));
+  va_start (args, fmt);
+  m = vsnprintf (buf + n, sizeof (buf) - n - 2, fmt, args);
+  va_end (args);
+  if (m < 0) return;
+  if (m > (int) sizeof (buf) - n - 3) m = sizeof (buf) - n - 3;
+  n += m;
+  buf[n++] = '}';
+  buf[n++] = '\n';
+  if (write (_orc_verif_fd, buf, n) < 0) { /* nothing to do */ }
+}
+#endif
